@@ -13,6 +13,14 @@ from .c03 import helper_for_field, port_cover_rules, r03_1
 from .common import chain, deep_resolve, mentions, reachable_without_edges
 from .shading import _int_offset, analyse_shading, check_strictly_above
 
+
+def _norm_gl(ctx, q):
+    """The method with a generator that is consumed by one loop written as the nested loops it stands for, and pairwise
+    tuple assignments split (`a, b = x[:i], x[i:]`)."""
+    from .normalise import normalised
+
+    return normalised(ctx, ctx.func(q), "genloops")
+
 PROPERTY = "C04"
 LEVEL = "other"
 EXPLANATION = (
@@ -44,7 +52,7 @@ def _is_shading_call(e: Optional[ast.AST]) -> bool:
 
 def r04_1(ctx: Ctx, rep: Report) -> None:  # noqa: C901
     rep.rule("R04.1")
-    ds = ctx.func("Acl.delete_shadow")
+    ds = _norm_gl(ctx, "Acl.delete_shadow")
     cfg = ctx.cfg(ds)
     defs = _local_defs(ds)
     rep.instance()
@@ -186,7 +194,7 @@ def _r04_3_enumerate(ctx: Ctx, rep: Report, ds: Func, defs, resolve, enum_filter
 
 def r04_3(ctx: Ctx, rep: Report) -> None:  # noqa: C901
     rep.rule("R04.3")
-    ds = ctx.func("Acl.delete_shadow")
+    ds = _norm_gl(ctx, "Acl.delete_shadow")
     cfg = ctx.cfg(ds)
     defs = _local_defs(ds)
 
@@ -293,6 +301,8 @@ def r04_3(ctx: Ctx, rep: Report) -> None:  # noqa: C901
     concat_ok = False
     for st in stores:
         v = st.value
+        if isinstance(v, ast.Name):
+            v = resolve(v)  # `new = head + [filtered tail]` ... `<copy>.items = new`
         if isinstance(v, ast.BinOp) and isinstance(v.op, ast.Add):
             l, r = resolve(v.left), resolve(v.right)
             head = isinstance(l, ast.Subscript) and isinstance(l.slice, ast.Slice) and l.slice.lower is None and l.slice.upper is not None
@@ -370,7 +380,7 @@ def kept_items_stay_themselves(ctx: Ctx, rep: Report, rid: str = "R04.9") -> Non
     hands the ACL new objects: blocks the user made by hand dissolve, every rebuilt block loses uuid, note and number, every
     kept entry gets a new identifier."""
     rep.rule(rid)
-    f = ctx.func("Acl.delete_shadow")
+    f = _norm_gl(ctx, "Acl.delete_shadow")
     rep.instance()
     copies = set()
     for x in own_nodes(f.node):
